@@ -822,6 +822,15 @@ func (b *BlockCtx) buildV2(t AbsTx) (types.V2Transaction, error) {
 			return txn, err
 		}
 		e, ok := b.sce(id)
+		if parts := strings.Split(in.Auth, ":"); len(parts) == 4 && parts[0] == "as" {
+			// the "confuse" defect: an ephemeral parent named by the id of an in-block element of another kind, stating
+			// owner, value and maturity of an in-block siacoin output
+			val, _ := strconv.ParseUint(parts[2], 10, 64)
+			mat, _ := strconv.ParseUint(parts[3], 10, 64)
+			e = types.SiacoinElement{ID: id, StateElement: types.StateElement{LeafIndex: types.UnassignedLeafIndex},
+				SiacoinOutput: types.SiacoinOutput{Value: cur(val), Address: s.K.Addr(parts[1])}, MaturityHeight: mat}
+			in.Auth, ok = "ok", true
+		}
 		if !ok {
 			return txn, ErrUnknown{"no element for " + in.ID.String()}
 		}
